@@ -283,6 +283,21 @@ func run(args map[string]string) {
 	nwide := common.Atoi(args["--nwide"], 0)
 	cueBin := args["--cue"]
 	work := args["--out"]
+	if ncli+nwide > 0 {
+		// corpus: numbers at and beyond the limits of TOML's 64-bit integers and floats
+		for n, line := range []string{
+			"C fmt=toml mode=stdout expr=0 fail=none wide=1 data={78=i:9223372036854775808,}",
+			"C fmt=toml mode=outfile expr=0 fail=none wide=1 data={61={62=[i:1,{63=i:-123456789012345678901234567890,},],},}",
+			"C fmt=toml mode=stdout expr=0 fail=none wide=1 data={78=f:1e+1000,}",
+			"C fmt=toml mode=stdout expr=0 fail=none wide=1 data={78=i:-9223372036854775808,79=i:9223372036854775807,}",
+		} {
+			spec, id := parseCliSpec(line), 900000+n
+			jobs = append(jobs, func(ctx *cue.Context) [][2]string {
+				cs, im := cliCase(cueBin, work, id, spec)
+				return [][2]string{{cs, im}}
+			})
+		}
+	}
 	for i := 0; i < ncli+nwide; i++ {
 		g := &dgen{r: r}
 		c := cliSpec{format: common.Pick(r, []string{"json", "yaml", "toml", "cue"}),
